@@ -127,6 +127,23 @@ PROPERTIES = {
              'Response.parse / NameValueRecord.parse are assumed here; the decoders are C19',
         not_decided=['body == dec(payload) as one end-to-end equation (needs zlib semantics: C19 / bounded stand-in)'],
     ),
+    'C09': dict(
+        modules=['redirect', 'websession', 'itemsession', 'webproc', 'httpstream', 'httpclient', 'ftp', 'escape'], level='proof', bounded=['c09_hostile.py'],
+        claim='Exception-escape contracts (raises is the complete set of classes that may leave the function; every other class reaching the boundary is the failed '
+              'obligation escape[Class]@site, decided through the real class hierarchy of wpull/errors.py) on the HTTP stack -- Stream.read_response, read_body and the '
+              'three body readers, ChunkedTransferReader.read_chunk_header/body/trailer, _decompress_data/_flush_decompressor, Response.parse, parse_status_line, '
+              'NameValueRecord.parse, unfold_lines, client Session.start --, on the FTP control channel -- Reply.parse, ControlStream.read_reply, every Commander command '
+              'sequence, parse_address --, on WebSession._process_redirect/_process_response/start (the next request is always connectable) and on the processor '
+              'boundary WebProcessorSession._fetch_one/_process_loop: only ProtocolError / NetworkError / ServerError / SSLVerificationError classes leave them, for all '
+              'bytes and all segmentations. Six genuine defects found by these obligations and by the stand-in were repaired (fix: commits).',
+        note='assumed: Connection.read/readline raise NetworkError or (readline) ValueError for an over-long line; zlib raises zlib.error only; client-side preconditions '
+             '(fresh session, sendable request, body with a numeric Content-Length) are requires, not escapes; SSLVerificationError re-raised by ResultRule.handle_error '
+             'when certificate checking is on is wpull\'s documented behaviour. NameValueRecord.encoding is a known codec: construction-site invariant scanned from the '
+             'source on every run. Bounded stand-in c09_hostile.py (labelled bounded): ls/MLSD listing parsers, decoders over segmentations, CSS and JavaScript scrapers, '
+             'robots parser, against the exception classes their callers convert (the except clause is re-read from the source).',
+        not_decided=['HTML and sitemap scrapers (lxml / html5lib cannot be imported in this sandbox): not examined', 'FTP client Session.start/download_listing bodies (asyncio.wait_for, '
+                     'TextIOWrapper): only their callees are under contract', 'RobotsTxtChecker: C20'],
+    ),
     'C16': dict(
         modules=['url', 'request'], level='proof', bounded=['c16_wire.py'],
         claim='RawRequest.to_bytes is request line + serialised fields + blank line and nothing else; Request.prepare_for_send sets the target to the parsed URL\'s '
